@@ -7,7 +7,7 @@ import time
 from .. import ioarch, iocheck, iogen
 from ..common import VERIF
 
-REQUIRED = ["no_T_only_defaults", "untrusted_name_reported", "subsetSorted_sound", "disjointSorted_sound",
+REQUIRED = ["no_T_only_defaults", "no_T_only_defaults_archive", "untrusted_name_reported", "subsetSorted_sound", "disjointSorted_sound",
             "defaults_in_families", "defaults_not_dangerous", "table_vouched"]
 
 
